@@ -212,10 +212,39 @@ ROUTES = ["string", "file", "file+mod", "lookup", "lookup+mod", "include", "incl
           "namespace", "namespace+mod"]
 
 
-def cfg(good, faulty, tails, maxpre, nlkinds, invariants, routes=("string",), rich_overrides=True):
-    s = "CONSTANTS\n  Good = {%s}\n  Faulty = {%s}\n  Tails = {%s}\n  MaxPre = %d\n  NLKinds = {%s}\n  Routes = {%s}\n  RichOverrides = %s\n" % (
+OPTS = ["none", "pre-identity", "pre-delete", "pre-insert", "pre-list", "bytes-magic", "bom", "strict_undefined", "enable_loop-false",
+        "imports", "future_imports", "default_filters"]
+
+
+def apply_option(opt, text):
+    """Realise one option configuration of Lines.tla: (what is given to Template, keyword arguments, the text the
+    lexer lexes = the source every node and exception must carry)."""
+    import codecs
+    del2 = lambda t: t.split("\n", 2)[2]        # noqa -- deletes the 2 lines in front
+    ins2 = lambda t: "ins 1\nins 2\n" + t        # noqa -- puts 2 lines in front
+    if opt == "pre-identity":
+        return text, {"preprocessor": lambda t: t}, text
+    if opt == "pre-delete":
+        return "junk 1\njunk 2\n" + text, {"preprocessor": del2}, text
+    if opt == "pre-insert":
+        return text, {"preprocessor": ins2}, "ins 1\nins 2\n" + text
+    if opt == "pre-list":
+        return "junk 1\njunk 2\n" + text, {"preprocessor": [del2, ins2]}, "ins 1\nins 2\n" + text
+    if opt == "bytes-magic":
+        full = "## -*- coding: utf-8 -*-\n" + text
+        return full.encode("utf-8"), {}, full
+    if opt == "bom":
+        return codecs.BOM_UTF8 + text.encode("utf-8"), {}, text
+    kw = {"strict_undefined": {"strict_undefined": True}, "enable_loop-false": {"enable_loop": False}, "imports": {"imports": ["import os", "import re"]},
+          "future_imports": {"future_imports": ["annotations"]}, "default_filters": {"default_filters": ["str", "trim"]}}.get(opt, {})
+    return text, kw, text
+
+
+def cfg(good, faulty, tails, maxpre, nlkinds, invariants, routes=("string",), rich_overrides=True, opts=("none",), source_lexed=True):
+    s = "CONSTANTS\n  Good = {%s}\n  Faulty = {%s}\n  Tails = {%s}\n  MaxPre = %d\n  NLKinds = {%s}\n  Routes = {%s}\n  RichOverrides = %s\n  Opts = {%s}\n  SourceIsLexedText = %s\n" % (
         ", ".join(map(str, good)), ", ".join(map(str, faulty)), ", ".join(map(str, tails)), maxpre,
-        ", ".join('"%s"' % x for x in nlkinds), ", ".join('"%s"' % x for x in routes), "TRUE" if rich_overrides else "FALSE")
+        ", ".join('"%s"' % x for x in nlkinds), ", ".join('"%s"' % x for x in routes), "TRUE" if rich_overrides else "FALSE",
+        ", ".join('"%s"' % x for x in opts), "TRUE" if source_lexed else "FALSE")
     s += "SPECIFICATION Spec\nCHECK_DEADLOCK FALSE\n"
     for i in invariants:
         s += "INVARIANT %s\n" % i
@@ -239,7 +268,9 @@ def _record(o, e, text, fn, want_rich, want_html=True):
     from mako import exceptions
     o.update(res="exc", type=type(e).__name__, lineno=e.lineno, pos=e.pos,
              filename_ok=(e.filename == fn) if fn else (e.filename is None),
-             filename=e.filename, source_ok=(e.source == text), msg_ok=("line: %s char: %s" % (e.lineno, e.pos)) in str(e))
+             filename=e.filename, source_ok=(e.source == text),
+             source_line=(e.source.split("\n")[e.lineno - 1].rstrip("\r") if isinstance(e.source, str) and isinstance(e.lineno, int)
+                          and 0 < e.lineno <= e.source.count("\n") + 1 else None), msg_ok=("line: %s char: %s" % (e.lineno, e.pos)) in str(e))
     if not want_rich:
         return
     try:
@@ -275,7 +306,7 @@ def observe(text, path, work, want_rich=False):
     o = {"path": path}
     fn = None
     old = signal.signal(signal.SIGALRM, _alarm)
-    signal.alarm(20)
+    signal.alarm(core.tscale(20))
     try:
         try:
             if path == "string":
@@ -308,6 +339,43 @@ def observe(text, path, work, want_rich=False):
     return o
 
 
+def observe_option(raw, kw, lexed, path, work, want_html):
+    """Compile with one option configuration on one path; `lexed` is the text the exception must carry."""
+    from mako import exceptions
+    from mako.template import Template
+    from mako.lookup import TemplateLookup
+    o = {"path": path}
+    fn = None
+    old = signal.signal(signal.SIGALRM, _alarm)
+    signal.alarm(core.tscale(20))
+    try:
+        try:
+            if path == "string":
+                Template(raw, **kw)
+            else:
+                d = os.path.join(work, "o")
+                shutil.rmtree(d, ignore_errors=True)
+                os.makedirs(os.path.join(d, "tpl"))
+                fn = os.path.join(d, "tpl", "f.html")
+                with open(fn, "wb") as f:
+                    f.write(raw if isinstance(raw, bytes) else raw.encode("utf-8"))
+                if path == "file":
+                    Template(filename=fn, **kw)
+                else:
+                    TemplateLookup(directories=[os.path.join(d, "tpl")], module_directory=os.path.join(d, "mods"), **kw).get_template("/f.html")
+            o["res"] = "noexc"
+        except (exceptions.SyntaxException, exceptions.CompileException) as e:
+            _record(o, e, lexed, fn, True, want_html)
+        except _Timeout:
+            o["res"] = "raw:Timeout"
+        except Exception as e:  # noqa
+            o["res"] = "raw:" + type(e).__name__
+    finally:
+        signal.alarm(0)
+        signal.signal(signal.SIGALRM, old)
+    return o
+
+
 def outer_template(kind, pre_lines, uri):
     """A well-formed template that makes the lookup compile `uri` while it renders; it has its own
     preceding lines, so the line of its tag differs from lines of the inner template."""
@@ -329,7 +397,7 @@ def observe_route(text, route, work, pre_lines, want_html):
     o = {"path": route}
     fn = None
     old = signal.signal(signal.SIGALRM, _alarm)
-    signal.alarm(20)
+    signal.alarm(core.tscale(20))
     try:
         try:
             if kind == "string":
@@ -381,6 +449,8 @@ def compare(case, E, text, o):
         return "line-early" if o["lineno"] < case["line"] else "line-late"
     if o["pos"] not in case["cols"]:
         return "column"
+    if "source_line" in o and o["source_line"] != lc.physical_line(text, case["line"]):
+        return "source-inconsistent-with-line"     # exc.source, split on newlines and indexed by exc.lineno, is not the faulty line
     if not o["filename_ok"]:
         return "filename"
     if not o["source_ok"]:
@@ -509,7 +579,23 @@ def check(run):
                    name="mc-routes-witness", workers=2, extra_files=files, env=env, expect_ok=False)
     if resw.violated != ["RichShowsFault"]:
         raise MachineryError("witness: RichOverrides = FALSE must violate RichShowsFault on a lazy route (%s)" % resw.violated)
-    run.extra["cases"] = {"main": n_main, "eof": n_eof, "design": n_design, "routes": len(route_cases), "break-styles": n_brk}
+    # ------------------------------------------------------------------ 2c. TLC: options that transform the text before lexing
+    inv_o = inv + ["SourceConsistent"]
+    reso = run.tlc("MC_Lines", cfg(few[:2], allf, [], 1, ["lf"], inv_o, opts=OPTS), name="mc-options", workers=workers, extra_files=files, env=env)
+    if reso.violated:
+        run.spec_violation(reso)
+    opt_cases = {}
+    for c in reso.json_lines():
+        if isinstance(c, dict) and "seq" in c and "opt" in c:
+            opt_cases.setdefault((tuple(c["seq"]), c["opt"]), c)
+    opt_cases = [opt_cases[k] for k in sorted(opt_cases)]
+    if len({(E[c["seq"][c["fpos"] - 1] - 1]["id"], c["opt"]) for c in opt_cases}) != len(allf) * len(OPTS):
+        raise MachineryError("option instance does not cover every (fault entry, option) pair")
+    resw = run.tlc("MC_Lines", cfg(few[:1], allf[:3], [], 0, ["lf"], ["SourceConsistent"], opts=OPTS, source_lexed=False),
+                   name="mc-options-witness", workers=2, extra_files=files, env=env, expect_ok=False)
+    if resw.violated != ["SourceConsistent"]:
+        raise MachineryError("witness: a source taken before the preprocessors ran must violate SourceConsistent (%s)" % resw.violated)
+    run.extra["cases"] = {"main": n_main, "eof": n_eof, "design": n_design, "routes": len(route_cases), "options": len(opt_cases), "break-styles": n_brk}
     run.extra["catalog"] = {"good": len(good), "faults": len(faulty) + len(eof_only), "design_faults": len(design), "cosmetics": cos}
     if n_main < 1000:
         raise MachineryError("TLC exported only %d cases" % n_main)
@@ -568,6 +654,27 @@ def check(run):
             mism.setdefault(sig, []).append({"template": text, "path": case["route"], "expected": {"line": case["line"], "cols": case["cols"]},
                                              "observed": o, "layout": [E[i - 1]["id"] for i in case["seq"]], "nl": "lf",
                                              "design_model_reports": {"line": case["mline"], "col": case["mcol"]}})
+    # ---- every fault entry x every option configuration: positions in the lexed text, the carried source, RichTraceback
+    seen_oh = set()
+    for ci, case in enumerate(opt_cases):
+        text = lc.compose(E, case["seq"], "\n")
+        fe = E[case["seq"][case["fpos"] - 1] - 1]
+        h = int(hashlib.sha1(("%d:o:%d" % (run.seed, ci)).encode()).hexdigest()[:8], 16)
+        raw, kw, lexed = apply_option(case["opt"], text)
+        hk = (case["opt"], fe["f"]["cls"], fe["f"]["site"])
+        want_html = hk not in seen_oh or h % 40 == 0
+        seen_oh.add(hk)
+        path = "string" if h % 3 else ("file" if h % 2 else "lookup+mod")
+        o = observe_option(raw, kw, lexed, path, work, want_html)
+        clause = compare(case, E, lexed, o)
+        checked += 1
+        if clause:
+            sig = "%s:%s" % (fe["id"], clause)
+            if case["opt"] != "none" and sig not in mism:
+                sig += ":option-" + case["opt"]     # a failure of this class that is not seen without the option
+            mism.setdefault(sig, []).append({"template": text, "path": path, "option": case["opt"], "expected": {"line": case["line"], "cols": case["cols"]},
+                                             "observed": o, "layout": [E[i - 1]["id"] for i in case["seq"]], "nl": "lf",
+                                             "design_model_reports": {"line": case["mline"], "col": case["mcol"]}})
     run.traces += checked
     run.extra["compilations_compared"] = checked
     run.extra["cases_on_all_four_paths"] = multi
@@ -608,11 +715,12 @@ def check(run):
     for case in pick[:10]:
         text = lc.compose(E, case["seq"], "\n" if case["nl"] == "lf" else "\r\n")
         syn = {"res": "exc", "type": "SyntaxException", "lineno": case["line"], "pos": case["cols"][0], "filename_ok": True,
-               "source_ok": True, "msg_ok": True}
+               "source_ok": True, "msg_ok": True, "source_line": lc.physical_line(text, case["line"])}
         ok = compare(case, E, text, syn) is None
         ok = ok and compare(case, E, text, dict(syn, lineno=case["line"] + 1)) is not None
         ok = ok and compare(case, E, text, dict(syn, pos=max(case["cols"]) + 1)) is not None
         ok = ok and compare(case, E, text, dict(syn, source_ok=False)) is not None
+        ok = ok and compare(case, E, text, dict(syn, source_line="some other line")) is not None
         run.negative_control(ok, "comparer mis-judged a synthetic observation (%s)" % case["seq"])
         rejected += 1
     if not rejected:
@@ -622,6 +730,9 @@ def check(run):
         "column of an indented control line: with or without the indentation is accepted (the property is silent)",
         "SyntaxException and CompileException are both accepted for every fault class",
         "three file-based paths + RichTraceback/error templates are run on a seeded sample covering every fault entry x line terminator",
+        "options: preprocessor identity / deleting 2 lines / inserting 2 lines / a list of both, bytes with a magic-comment first line, BOM, "
+        "strict_undefined, enable_loop=False, imports, future_imports, default_filters: every fault entry x every option each run (<=1 preceding construct "
+        "of 2 kinds); positions are positions in the text the lexer lexes, and exc.source indexed by exc.lineno must be the faulty line",
         "compile routes (direct string/file/lookup, lazily via include/inherit/namespace from a rendering outer template, each with and "
         "without module_directory): every fault entry x every route each run, over <=1 preceding construct of 4 kinds; html template on a sample per pair",
     ]
